@@ -840,9 +840,17 @@ where
     panic!("VERIF: thread::spawn reached (Kani cannot execute threads)")
 }
 
+/// `CacheBuilder::new*` creates a `RandomState` (getrandom syscall) that `set_hasher` replaces at
+/// once; the keys are irrelevant
+#[cfg(kani)]
+fn random_state_stub() -> std::collections::hash_map::RandomState {
+    unsafe { std::mem::zeroed() }
+}
+
 cache_harness! {
     [kani::unwind(6),
-     kani::stub(std::thread::spawn, spawn_stub)]
+     kani::stub(std::thread::spawn, spawn_stub),
+     kani::stub(std::collections::hash_map::RandomState::new, random_state_stub)]
     fn c20_finalize_rejects_zero() {
         let n = nd::any_usize();
         let mc = nd::any_i64();
@@ -930,6 +938,9 @@ fn c10_wait(clear_race: bool) {
         C10_P = &mut p as *mut _;
         C10_CLEAR_FIRST = clear_race;
         stubs::WG_DRIVER = Some(c10_driver);
+        // there is room (assumed above): the policy admits without victims
+        crate::policy::verif_harness::psync::CONTRACT_TRIVIAL = true;
+        crate::policy::verif_harness::psync::CONTRACT_ADMIT = true;
     }
     let r = p.cache.wait();
     vassert!(r.is_ok(), "wait() returns Ok once the marker has been released");
